@@ -27,6 +27,10 @@ CHECKS = {
    "exhaustive in-program enumeration of all byte strings of length <=4 over a 19-byte UTF-8 boundary alphabet, rapid-drawn longer byte strings, every rune value for string(rune), and generated literals in plain and minified builds; every string operation of the property is digested and compared with the native run",
    "trusts the native Go toolchain as reference; digests are 32-bit FNV (a mismatch is localised to a string and an operation by re-running verbosely)",
    "exhaustive enumeration + property-based differential testing (rapid) with native Go as oracle"),
+ "C15": ("exploration",
+   "rapid-generated comparable key types (nested to depth 3) with adversarial key pools and rapid-generated operation histories (insert, overwrite, op-assign, delete, lookup, comma-ok, len, clear-by-range, range with deletion, nil maps, unhashable dynamic keys); len and an order-insensitive digest after every step are compared with the native run, range semantics through in-program invariants",
+   "trusts the native Go toolchain as reference; digests use a generated per-type renderer, so two keys that render equally but differ would only be noticed through len",
+   "property-based differential testing of generated operation histories (rapid) with native Go as oracle"),
 }
 PENDING_REASON = "check not built yet in this session (work in progress; see DESIGN.md §8 for the order)"
 props=[json.loads(l)['id'] for l in open('/verif/properties.jsonl')]
